@@ -557,7 +557,51 @@ func (x *Executor) applyContract(fr *Frame, st *State, reach string, con *Contra
 	if con.Trusted {
 		u.trusted["trusted contract: "+strings.TrimPrefix(con.PkgPath, repoModule+"/")+"."+con.Key()] = true
 	}
+	x.heapClosed(st)
 	return res
+}
+
+// heapClosed: the heap is closed under reachability at every moment: an allocated object holds only
+// references to allocated objects (or nil). Emitted after a contracted call for the components the
+// unit has touched, against the allocation set as it is then; objects allocated afterwards are
+// therefore distinct from everything reachable now.
+func (x *Executor) heapClosed(st *State) {
+	u := x.u
+	if _, ok := u.heapSorts[allocComp]; !ok {
+		return
+	}
+	a := x.heapGet(st, allocComp)
+	var cs []string
+	for c := range u.heapSorts {
+		cs = append(cs, c)
+	}
+	sort.Strings(cs)
+	for _, c := range cs {
+		cur, touched := st.heap[c]
+		if !touched {
+			n := q(c + "@0")
+			if !u.declSeen[n] {
+				continue
+			}
+			cur = n
+		}
+		key := "closed:" + cur + ":" + a
+		if u.lemmaAx[key] {
+			continue
+		}
+		sel, binders, refs := u.refOfComp(c, cur)
+		if len(refs) == 0 {
+			continue
+		}
+		if u.mute == 0 {
+			u.lemmaAx[key] = true // (a muted dry run's script is discarded: emit again later)
+		}
+		var conj []string
+		for _, ref := range refs {
+			conj = append(conj, fmt.Sprintf("(or (= %s 0) (select %s (refroot %s)))", ref, a, ref))
+		}
+		u.emit(fmt.Sprintf("(assert (forall %s (! (=> (select %s (refroot hr)) (and %s)) :pattern (%s))))", binders, a, strings.Join(conj, " "), sel))
+	}
 }
 
 func mayAllocate(sig *types.Signature) bool {
